@@ -55,8 +55,11 @@ func mkRep(base, prov string) string {
 	return base + "@" + prov
 }
 
+// A representation reads base[+configuration][@provenance]: "dyn+er@set" is a
+// dynamic message made with an extension registry (cfg.go) over a descriptor
+// that went through a descriptor set.
 func repBase(r string) string {
-	if i := strings.IndexByte(r, '@'); i >= 0 {
+	if i := strings.IndexAny(r, "+@"); i >= 0 {
 		return r[:i]
 	}
 	return r
@@ -74,8 +77,11 @@ func isDyn(r string) bool { return repBase(r) == "dyn" }
 func knownRep(r string) bool {
 	switch repBase(r) {
 	case "gen", "np", "hooked":
-		return repProv(r) == ""
+		return repProv(r) == "" && repCfg(r) == ""
 	case "dyn":
+		if !knownCfg(repCfg(r)) {
+			return false
+		}
 		for _, p := range provKinds {
 			if p == repProv(r) {
 				return true
@@ -104,7 +110,7 @@ func pairClass(prefix, sr, dr string) string {
 	default:
 		p = sb + "->" + db
 	}
-	return p + descRel(prefix == "", sr, dr)
+	return p + cfgRel(sr, dr) + descRel(prefix == "", sr, dr)
 }
 
 func descRel(sameType bool, sr, dr string) string {
@@ -133,9 +139,9 @@ func tagRep(r string, obj int) string {
 
 func cloneClass(sr string) string {
 	if repProv(sr) != "" {
-		return repBase(sr) + "@desc=uncached"
+		return repBase(sr) + cfgRel(sr, sr) + "@desc=uncached"
 	}
-	return sr
+	return repBase(sr) + cfgRel(sr, sr)
 }
 
 // ------------------------------------------------------------ building the descriptors
@@ -213,15 +219,20 @@ func descOf(gen proto.Message, prov string) *desc.MessageDescriptor {
 }
 
 // asDynP: asDyn over a descriptor of the given provenance.
-func asDynP(gen proto.Message, prov string) *dynamic.Message {
+func asDynP(gen proto.Message, prov string) *dynamic.Message { return asDynPC(gen, prov, "") }
+
+// asDynPC: asDyn over a descriptor of the given provenance, the dynamic message
+// made in the given configuration (cfg.go).
+func asDynPC(gen proto.Message, prov, cfg string) *dynamic.Message {
 	b, err := proto.MarshalOptions{AllowPartial: true, Deterministic: true}.Marshal(gen)
 	if err != nil {
 		panic(err)
 	}
-	dm := dynamic.NewMessage(descOf(gen, prov))
+	dm := newDyn(descOf(gen, prov), cfg)
 	if err := dm.Unmarshal(b); err != nil {
-		panic(fmt.Sprintf("dynamic unmarshal of %T (%s): %v", gen, prov, err))
+		panic(fmt.Sprintf("dynamic unmarshal of %T (%s, %s): %v", gen, prov, cfg, err))
 	}
+	learn(dm, cfg)
 	return dm
 }
 
@@ -429,12 +440,12 @@ func (k kase) hasProv() bool {
 	return false
 }
 
-// withoutProv: the same case with every dynamic message over the cached descriptor.
-func (k kase) withoutProv() kase {
-	k.SrcRep, k.DstRep = repBase(k.SrcRep), repBase(k.DstRep)
+// stripRep: the same case with every representation mapped through f.
+func (k kase) stripRep(f func(string) string) kase {
+	k.SrcRep, k.DstRep, k.InnerSrcRep, k.InnerDstRep = f(k.SrcRep), f(k.DstRep), f(k.InnerSrcRep), f(k.InnerDstRep)
 	seq := append([]step(nil), k.Seq...)
 	for i := range seq {
-		seq[i].DstRep = repBase(seq[i].DstRep)
+		seq[i].DstRep = f(seq[i].DstRep)
 	}
 	if len(seq) > 0 {
 		k.Seq = seq
@@ -442,32 +453,63 @@ func (k kase) withoutProv() kase {
 	return k
 }
 
-// reduceProv: a failing case that uses a descriptor other than the cached one is
-// run again over the cached descriptors. A clause that fails there as well does
-// not take the provenance dimension: the finding is then reported in the class
-// (and under the fingerprint) of the case of the base grammar, so that a
-// "@desc" class names something in which the descriptor object plays a part.
+// withoutProv: the same case with every dynamic message over the cached descriptor (its configuration kept).
+func (k kase) withoutProv() kase {
+	return k.stripRep(func(r string) string {
+		if i := strings.IndexByte(r, '@'); i >= 0 {
+			return r[:i]
+		}
+		return r
+	})
+}
+
+// plainDyn: the same case with every dynamic message made by dynamic.NewMessage over the cached descriptor.
+func (k kase) plainDyn() kase { return k.stripRep(repBase) }
+
+// reduceProv: a failing case that uses a descriptor other than the cached one,
+// or a dynamic message in a configuration other than the default (cfg.go), is
+// run again (1) over the cached descriptors, the configurations kept, and (2)
+// with plain dynamic messages over the cached descriptors. A clause that fails
+// there as well does not take the dimension that was taken away: the finding is
+// then reported in the class (and under the fingerprint) of the simpler case, so
+// that a "@desc" class names something in which the descriptor object plays a
+// part and a "+cfg" class something in which the configuration does.
 func reduceProv(k kase, o outcome) outcome {
-	if !k.hasProv() || o.Internal != "" || len(o.Findings) == 0 {
+	if !(k.hasProv() || k.hasCfg()) || o.Internal != "" || len(o.Findings) == 0 {
 		return o
 	}
-	k0 := k.withoutProv()
-	o0 := runCase1(k0)
-	if o0.Internal != "" {
-		return o0
+	type stage struct {
+		k    kase
+		note string
 	}
-	for i := range o.Findings {
-		for _, f0 := range o0.Findings {
-			if family(f0.Clause) != family(o.Findings[i].Clause) {
-				continue
+	var stages []stage
+	if k.hasProv() && k.hasCfg() {
+		stages = append(stages, stage{k.withoutProv(), " [fails the same way when every dynamic message is made from the cached descriptor: the provenance of the descriptor plays no part]"})
+	}
+	note := " [fails the same way when every dynamic message is made from the cached descriptor: the provenance of the descriptor plays no part]"
+	if k.hasCfg() {
+		note = " [fails the same way when every dynamic message is made by dynamic.NewMessage from the cached descriptor: the configuration of the dynamic message plays no part]"
+	}
+	stages = append(stages, stage{k.plainDyn(), note})
+	for _, st := range stages {
+		k0 := st.k
+		o0 := runCase1(k0)
+		if o0.Internal != "" {
+			return o0
+		}
+		for i := range o.Findings {
+			for _, f0 := range o0.Findings {
+				if family(f0.Clause) != family(o.Findings[i].Clause) {
+					continue
+				}
+				class := f0.Class
+				if class == "" {
+					class = k0.Op + "|" + k0.pairing()
+				}
+				o.Findings[i].Class, o.Findings[i].Clause = class, f0.Clause
+				o.Findings[i].What += st.note
+				break
 			}
-			class := f0.Class
-			if class == "" {
-				class = k0.Op + "|" + k0.pairing()
-			}
-			o.Findings[i].Class, o.Findings[i].Clause = class, f0.Clause
-			o.Findings[i].What += " [fails the same way when every dynamic message is made from the cached descriptor: the provenance of the descriptor plays no part]"
-			break
 		}
 	}
 	return o
